@@ -54,8 +54,11 @@ def run(prog, rep, tier='quick', config='default'):
         rep.violation('R3a', 'anchor-lost:sfla-construction', fn=g.name, detail='anchor lost: construction of the automatic SfLA transaction')
 
     def reg_atom(fn, c):
-        if c.callee.endswith('Affiliate::registered'):
-            return ('registered', 'bool')
+        # `registered()` of the item the predicate is asked about (not of a captured affiliate, e.g. the seller's)
+        if c.callee.endswith('Affiliate::registered') and c.args:
+            o = mir.provenance(fn, c.args[0])
+            if not o.upvars and (fn.kind != 'Closure' or (o.params - {1})):
+                return ('registered', 'bool')
         return None
     for n, (h, i, s) in enumerate(sfla):
         guarded = False
@@ -68,6 +71,23 @@ def run(prog, rep, tier='quick', config='default'):
                 if not tr:
                     guarded = True
         how = 'the adjustment row is built only on the not-registered edge of the receiving affiliate'
+        if not guarded and h.kind in ('Fn', 'AssocFn') and h is not g:
+            # a helper that builds one row: the test is made by whoever calls it
+            sites = [c for c in prog.callers.get(h.name, []) if not mir.is_testsupport(c.fn.name) and not c.inlined]
+
+            def site_guarded(c):
+                for (sbb, discr, vals, neg) in c.fn.conditions_at(c.bb):
+                    d = mir.provenance(c.fn, discr, follow_all_call_args=True)
+                    if any(x.callee.endswith('Affiliate::registered') for x in d.calls):
+                        tr = truth_of(vals, neg)
+                        if len([1 for op, _ in list(d.binops) + list(d.unops) if op == 'Not']) % 2 == 1:
+                            tr = not tr
+                        if not tr:
+                            return True
+                return c.fn.kind == 'Closure' and mir.filter_guarantees(prog, c.fn, reg_atom).get('registered') is False
+            if sites and all(site_guarded(c) for c in sites):
+                guarded = True
+                how = 'the helper building the row is called only on the not-registered edge of the receiving affiliate (%d call site(s))' % len(sites)
         if not guarded and h.kind == 'Closure' and mir.filter_guarantees(prog, h, reg_atom).get('registered') is False:
             guarded = True
             how = 'the row is built by a map over items that passed a filter keeping only not-registered affiliates'
@@ -150,7 +170,9 @@ def run(prog, rep, tier='quick', config='default'):
             exts = [x for x in t.calls if x.short in ('extend', 'append') and 'model::tx::Tx' in t.ty.get(x.arg_local(0), '') and t.dominates(c.bb, x.bb) and x.bb != c.bb]
             exts.sort(key=lambda x: sum(1 for y in exts if t.dominates(y.bb, x.bb)))
             splices.append((c, exts))
-    if not ins and not splices:
+    # ... or as  list.splice(i + 1..i + 1, new)
+    range_splices = [c for c in t.calls if c.short == 'splice' and re.search(r'vec::Vec', c.callee) and 'model::tx::Tx' in t.ty.get(c.arg_local(0), '') and len(c.args) > 2]
+    if not ins and not splices and not range_splices:
         rep.violation('R3b', 'anchor-lost:insert', fn=t.name, detail='anchor lost: insertion of generated transactions into the working list')
     # the loop counter: a user usize local compared with len() and incremented
     counters = set()
@@ -213,6 +235,27 @@ def run(prog, rep, tier='quick', config='default'):
                           detail='generated adjustments are not spliced in at position i + 1 of the working list (loop index: %s, +1: %s, additions only: %s, '
                                  'new rows then tail: %s)' % (uses_counter, has_one, bool(only_add), order_ok))
         if rows_ok:
+            rep.ok('R3b', 'inserted-rows-come-from-the-ledger-step', where=c.where(), fn=t.name, detail='the spliced rows are the ones delta_for_tx returned', trivial=True)
+        else:
+            rep.violation('R3b', 'inserted-rows-come-from-the-ledger-step', where=c.where(), fn=t.name, detail='rows spliced into the working list do not come from delta_for_tx')
+    for c in range_splices:
+        rd = t.single_def(c.arg_local(1)) if c.arg_local(1) is not None else None
+        ends = []
+        if rd and rd[2] == 'stmt' and rd[3]['r']['rv'] == 'agg' and rd[3]['r']['kind'].startswith('adt:std::ops::Range'):
+            ends = rd[3]['r']['ops']
+        ok_ends = len(ends) == 2
+        lets = {l for l in t.user if t.ty.get(l) == 'usize' and t.single_def(l) is not None and l not in {x for (x, _) in counters}}
+        for o in ends:
+            users, consts, ops, _calls = mir.expr_leaves(t, o, through=lets)
+            if not (any(l in users for (l, _) in counters) and len(users) == 1 and [v for v in consts if re.match(r'^\d+_usize$', v)] == ['1_usize'] and
+                    ops and all(op.startswith('Add') for op in ops)):
+                ok_ends = False
+        if ok_ends and 'RangeInclusive' not in rd[3]['r']['kind']:
+            rep.ok('R3b', 'inserted-directly-after-the-sale', where=c.where(), fn=t.name, detail='splice(i + 1..i + 1, rows): an empty range right after the current transaction')
+        else:
+            rep.violation('R3b', 'inserted-directly-after-the-sale', where=c.where(), fn=t.name,
+                          detail='generated adjustments are not spliced in at the empty range i + 1..i + 1 of the working list')
+        if mir.provenance(t, c.args[2], follow_all_call_args=True).has_call(re.escape(ls_name) + '$'):
             rep.ok('R3b', 'inserted-rows-come-from-the-ledger-step', where=c.where(), fn=t.name, detail='the spliced rows are the ones delta_for_tx returned', trivial=True)
         else:
             rep.violation('R3b', 'inserted-rows-come-from-the-ledger-step', where=c.where(), fn=t.name, detail='rows spliced into the working list do not come from delta_for_tx')
